@@ -124,7 +124,11 @@ theorem rve_constArray (cfg : Cfg) (T : List Lbl) (hT : T.length < nullIdx) (hA 
   rw [e7 _ none _ _ F 4 (by simp [Prim.width])]
   have hu2 : unle (le (Prim.u32).width es.length) = es.length := unle_le_of_lt (by simpa [Prim.width] using hn32)
   have hna : ¬ ((es.length + 1) * svSize ≥ cfg.allocLimit) := by omega
-  simp only [Res.bind, hu2, hna, ↓reduceIte]
+  have hlg : lenGe ((encItems (addUnique (addUnique t self).1 h).1 (elemCalls (addUnique (addUnique t self).1 h).1 es).2).2 ++ tail)
+      es.length = true := by
+    have := elemCalls_enc_len es (addUnique (addUnique t self).1 h).1
+    rw [lenGe_iff]; simp only [List.length_append]; omega
+  simp only [Res.bind, hu2, hna, hlg, Bool.not_true, Bool.or_self, Bool.and_false, Bool.false_eq_true, ↓reduceIte]
   rw [ih _ tail _ _ F sup' (by omega) (elemCalls_table es _ ▸ hp) hwe
     (by simp [hR]) (by omega)]
   simp [Res.bind, setL, e4, f4, Prim.width, regLabels_append, newFix_append, List.foldl_append, regLabels,
